@@ -55,6 +55,12 @@ class FnRef:
     name: str
 
 
+def static_methods(cls: ast.ClassDef) -> dict:
+    """{"Class.name": FunctionDef} for the @staticmethod functions of a class (for PyReader.extern_static)"""
+    return {f"{cls.name}.{f.name}": f for f in cls.body
+            if isinstance(f, ast.FunctionDef) and any(isinstance(d, ast.Name) and d.id == "staticmethod" for d in f.decorator_list)}
+
+
 def freeze(x):
     """tuples are lists for the evaluator; where one is used as a key it is the tuple again"""
     if isinstance(x, list):
@@ -810,10 +816,26 @@ class PyReader:
         """hook for rule-specific callees; return NotImplemented to fall through"""
         return NotImplemented
 
+    def has_attr(self, obj, name: str):
+        """hook: does the object the abstract value stands for have this attribute? True / False, None = the model does not say"""
+        return None
+
+    # static methods of classes defined in OTHER modules that the evaluated code may call, by dotted callee: {"CoordinateSystem.is_angle_component": FunctionDef}.
+    # They are evaluated from their source like a function of this module.
+    extern_static: dict = {}
+
     def ev_call(self, n: ast.Call, env: dict, fns: dict):
         r = self.hook_call(n, env, fns)
         if r is not NotImplemented:
             return r
+        if self.extern_static and (dotted(n.func) or "") in self.extern_static and (dotted(n.func) or "").split(".")[0] not in env:
+            args_ = []
+            for a in n.args:
+                if isinstance(a, ast.Starred):
+                    args_ += list(self.ev(a.value, env, fns))
+                else:
+                    args_.append(self.ev(a, env, fns))
+            return self.call_def(self.extern_static[dotted(n.func)], args_, {k.arg: self.ev(k.value, env, fns) for k in n.keywords if k.arg}, {})
         if isinstance(n.func, (ast.Call, ast.Subscript, ast.IfExp)):
             # the callee is itself computed: next(candidates, default)(expr), table[key](expr)
             fval = self.ev(n.func, env, fns)
@@ -826,6 +848,19 @@ class PyReader:
             return self.apply_value(fval, args_, n, fns, {k.arg: self.ev(k.value, env, fns) for k in n.keywords if k.arg})
         f = dotted(n.func) or ""
         name = f.split(".")[-1]
+        if f in ("getattr", "hasattr") and len(n.args) == (3 if f == "getattr" else 2) and not n.keywords and f not in self.functions and f not in env:
+            # getattr(obj, "name", default) / hasattr(obj, "name"): decided only where the rule's model says which attributes its objects have
+            obj, attr_ = self.ev(n.args[0], env, fns), self.ev(n.args[1], env, fns)
+            has_ = self.has_attr(obj, attr_) if isinstance(attr_, str) else None
+            if has_ is None:
+                self.fail(n, f"{f} on an object whose attributes are not modelled")
+            if f == "hasattr":
+                return has_
+            if not has_:
+                return self.ev(n.args[2], env, fns)
+            fake = ast.copy_location(ast.Attribute(value=ast.Name(id="__getattr_obj__", ctx=ast.Load()), attr=attr_, ctx=ast.Load()), n)
+            ast.fix_missing_locations(fake)
+            return self.ev(fake, {**env, "__getattr_obj__": obj}, fns)
         if f == "getattr" and len(n.args) == 2 and not n.keywords and "getattr" not in self.functions and "getattr" not in env:
             # getattr(obj, "name") is obj.name: the same evaluation as the attribute; of a method, the bound method
             obj, attr_ = self.ev(n.args[0], env, fns), self.ev(n.args[1], env, fns)
